@@ -23,6 +23,15 @@ TABLE = {
             "on a real Scenario; after every call the contained objects and the probed reserved ids are validated by TLC "
             "against the contract (total trace actions with re-synchronisation).",
             "TLC, the projection through public accessors, the deep-copy id probe, small-scope hypothesis"),
+    "C10": ("NetworkRefs.tla / MC_NetworkRefs.tla / Trace_NetworkRefs.tla",
+            "TLC enumerates all well-formed 3-lanelet networks one reference kind at a time (successor / predecessor "
+            "digraphs, adjacency, sign / light / stop-line references, intersection incoming / successor / crossing sets) "
+            "x every removal and cut-out operation and checks the contract clause (NoDangling, RelationsUntouched, "
+            "KeptUnchanged, HangingRule) on an implementation-shaped model of the clean-up code, with deviation constants "
+            "reproducing three defects; every enumerated (network, operation sequence) is executed on real LaneletNetwork / "
+            "Scenario objects and TLC validates (pre, op, post) with the same clause operator.",
+            "TLC, projection of id-valued attributes through public accessors, cut-out shapes that select exactly "
+            "the chosen lanelets"),
 }
 
 PENDING_REASON = "check not built yet in this round (specification module planned in DESIGN.md section 4); not claimed"
